@@ -528,6 +528,11 @@ func fromCtyTuple(val cty.Value, target reflect.Value, path cty.Path) error {
 			ev := val.Index(cty.NumberIntVal(int64(i)))
 
 			targetField := target.Field(i)
+			if !targetField.CanSet() {
+				// A struct with unexported fields (including big.Int and
+				// big.Float) cannot be populated positionally.
+				return likelyRequiredTypesError(path[:len(path)-1], target)
+			}
 			err := fromCtyValue(ev, targetField, path)
 			if err != nil {
 				return err
